@@ -2,11 +2,9 @@ package aead
 
 import (
 	"bytes"
-	"crypto/cipher"
 	"fmt"
 	"testing"
 
-	"golang.org/x/crypto/chacha20poly1305"
 	"pgregory.net/rapid"
 
 	"verif/harness/internal/clibaead"
@@ -64,20 +62,6 @@ func (d dstSpec) build() ([]byte, func() error) {
 		return nil, chk
 	}
 	return s, chk
-}
-
-func newAEAD(key []byte, nonceLen int) cipher.AEAD {
-	var a cipher.AEAD
-	var err error
-	if nonceLen == 24 {
-		a, err = chacha20poly1305.NewX(key)
-	} else {
-		a, err = chacha20poly1305.New(key)
-	}
-	if err != nil {
-		panic(err)
-	}
-	return a
 }
 
 // c01One checks Seal and Open of one message on the currently selected path.
@@ -308,6 +292,13 @@ func TestC01(t *testing.T) {
 		}
 		an, ac := genAdLen(rt, "ad")
 		ad, _ := gen.Bytes(rt, "adb", an)
+		if rapid.IntRange(0, 7).Draw(rt, "accDirected") == 0 {
+			// ciphertext solved so that the Poly1305 accumulator sits on a limb/modulus boundary before the length block
+			cls := rapid.IntRange(0, len(accClasses)-1).Draw(rt, "accClass")
+			if am, ok := solveAEADAcc(key, nonce, ad, rapid.SampledFrom(accCtLens).Draw(rt, "accCtLen"), cls, rapid.Uint64Range(0, 1<<40).Draw(rt, "accSeed")); ok {
+				pt, n, lc, fc = am.pt, len(am.pt), "pt=acc-directed:"+accClasses[cls], "fill=solved"
+			}
+		}
 		sd := genDst(rt, "sdst", n+16)
 		od := genDst(rt, "odst", n)
 		srcOff := rapid.IntRange(0, 31).Draw(rt, "srcOff")
@@ -344,7 +335,7 @@ func TestC01(t *testing.T) {
 			}
 			nontrivial := n > 64 || an > 0 || len(sd.prefix) > 0 || len(od.prefix) > 0
 			k := fmt.Sprintf("%s|%d|%s|%d|%d|%d|%s|%s", p.name, nonceLen, lenBucket(n), an, len(sd.prefix), len(od.prefix), sd.class(n+16), od.class(n))
-			c.Case(nontrivial, k, "path="+p.name, fmt.Sprintf("nonce=%d", nonceLen), lc, ac, kc, fc, "seal:"+sd.class(n+16), "open:"+od.class(n), ipClass)
+			c.Case(nontrivial, k, "path="+p.name, fmt.Sprintf("nonce=%d", nonceLen), lc, ac, kc, fc, "seal:"+sd.class(n+16), "open:"+od.class(n), ipClass, lastCtorCls)
 		}
 		if c.WantSample() {
 			c.Sample(map[string]any{"nonce_len": nonceLen, "pt_len": n, "ad_len": an, "seal_dst": fmt.Sprintf("%d+%d", len(sd.prefix), sd.spare), "open_dst": fmt.Sprintf("%d+%d", len(od.prefix), od.spare), "key": ev.Hex(key), "nonce": ev.Hex(nonce), "sealed": ev.Hex(want), "class": lc + " " + ac})
